@@ -263,3 +263,23 @@ def _c05_run(prop, tier):
 
 
 CHECKS["C05"] = {"run": _c05_run, "replay": _case_replay}
+
+
+def _migration_run(prop, tier):
+    t0 = time.time()
+    fam = fam_codec.migration_family(tier)
+    return _codec_finish(prop, tier, fam, t0,
+        "case = one real live migration (scale-out 4->8 or scale-in 8->4 through the real broker, coordinator rounds and two pairs of real proxies) "
+        "with 2-3 concurrent clients issuing GET/SET/DEL/APPEND/SETNX/PEXPIRE/PERSIST on keys inside and outside the migrating ranges at random proxies "
+        "(following MOVED), while a deterministic scheduler releases one stand-in command at a time (4 policies: random, migration-first, client-first, "
+        "mostly-LIFO); backend_conn_num 1/2; scan_count 1/2/16; plus directed runs with scripted PTTL replies (0, 1, -1, 2^31, 2^63-1); "
+        "non-trivial iff a RESTORE happened while a client operation was in flight",
+        ["timers max_blocking_time / max_migration_time are set high: the force-ahead paths are excluded from the claim",
+         "the stand-in's DUMP/RESTORE/SCAN semantics (harness/src/simnet.rs) stand for Redis; SCAN keeps Redis's guarantee for keys present during the whole scan",
+         "an error reply is treated as 'may or may not have taken effect'",
+         "schedules are sampled by seeded policies; the per-key linearizability decision itself is exact (subset construction in TLA+)"],
+        "schedules sampled")
+
+
+CHECKS["C03"] = {"run": _migration_run, "replay": _case_replay}
+CHECKS["C19"] = {"run": _migration_run, "replay": _case_replay}
